@@ -44,6 +44,12 @@ P = ParamSpec("P")
 R = TypeVar("R")
 
 
+class _TupleHint(tuple):  # type: ignore[type-arg]
+    """The annotations of the elements of a `tuple[...]` hint (as opposed to those of a single hint)."""
+
+    __slots__ = ()
+
+
 class DLTypeAnnotation(NamedTuple):
     """A class representing a type annotation for a tensor."""
 
@@ -83,7 +89,7 @@ class DLTypeAnnotation(NamedTuple):
 
         # tuple handling special case
         if origin is tuple:
-            return tuple(itertools.chain(*[cls.from_hint(inner_hint, name) for inner_hint in args]))
+            return _TupleHint(itertools.chain(*[cls.from_hint(inner_hint, name) for inner_hint in args]))
 
         # Only process Annotated types
         if origin is not Annotated:
@@ -162,7 +168,8 @@ def _resolve_value(
     value: Any,  # noqa: ANN401
     type_hint: tuple[_tensor_type_base.TensorTypeBase | DLTypeAnnotation | None, ...],
 ) -> tuple[Any]:
-    return cast("tuple[Any]", value) if len(type_hint) > 1 else (value,)
+    # the value is a tuple exactly when the hint was a tuple hint, whatever its length (tuple[T] included)
+    return cast("tuple[Any]", value) if isinstance(type_hint, _TupleHint) else (value,)
 
 
 def dltyped(  # noqa: C901, PLR0915
@@ -283,7 +290,7 @@ def dltyped(  # noqa: C901, PLR0915
                 if maybe_return_annotation := _resolve_types(dltype_hints.get(return_key)):
                     ctx.add(
                         return_key,
-                        _resolve_value(retval, maybe_return_annotation),
+                        _resolve_value(retval, dltype_hints[return_key]),
                         maybe_return_annotation,
                     )
                     ctx.assert_context()
